@@ -288,7 +288,17 @@ def ob_constructors():
     same = all((not jx.is_sym(a) and not jx.is_sym(b) and a == b) or (jx.is_z(split(a)[0]) and split(a)[0].eq(split(b)[0])) for a, b in zip(xp, yp))
     st, m, where = eq_goal(ctx, assume, dv, np.array([Fraction(1)] * len(dv), dtype=object), name)
     ok_ = same and st == "unsat"
-    out.append(rec(name, "discharged" if ok_ else "inconclusive", detail="" if ok_ else f"x_pos==y_pos: {same}; derivatives==1: {st}", **acc.stats()))
+    if ok_:
+        out.append(rec(name, "discharged", **acc.stats()))
+    else:
+        mdv = None
+        try:
+            mdv = float(m[md].as_fraction()) if st == "sat" and m is not None and m[md] is not None else None
+        except Exception:
+            mdv = None
+        bad_, msg = replay_rqs_init(mdv)
+        out.append(rec(name, "violation" if bad_ else "inconclusive", detail=f"x_pos==y_pos: {same}; derivatives==1: {st} | {msg}",
+                       replay=dict(func="c07:replay_rqs_init", kwargs=dict(min_derivative=mdv)), **acc.stats()))
     # LeakyTanh constructor contract (concrete, validated numerically against mpmath for several max_val)
     import mpmath
     mpmath.mp.dps = 40
@@ -332,6 +342,23 @@ def replay_affine_shapes(lsh, ssh):
     b = unwrap(fb.Affine(jnp.zeros(tuple(lsh)), jnp.ones(tuple(ssh))))
     osh = tuple(np.broadcast_shapes(tuple(lsh), tuple(ssh)))
     return (tuple(b.loc.shape) != osh or tuple(b.scale.shape) != osh), f"Affine(loc{tuple(lsh)}, scale{tuple(ssh)}): loc.shape={b.loc.shape} scale.shape={b.scale.shape}, documented {osh}"
+
+
+def replay_rqs_init(min_derivative=None):
+    """real constructor: a fresh spline is the identity (knot derivatives 1, x_pos == y_pos) for the solver's min_derivative and a grid"""
+    import numpy as np
+    import jax.numpy as jnp
+    import flowjax.bijections as fb
+    from flowjax.wrappers import unwrap
+    bad = []
+    for mdv in [min_derivative] * (min_derivative is not None and 0 < min_derivative < 1) + [1e-3, 0.01, 0.1, 0.5, 0.9]:
+        b = unwrap(fb.RationalQuadraticSpline(knots=2, interval=(-1, 3), min_derivative=mdv))
+        dv = np.asarray(b.derivatives, dtype=float)
+        xs = jnp.linspace(-0.9, 2.9, 7)
+        ys = np.asarray([float(b.transform(x_)) for x_ in xs])
+        if np.max(np.abs(dv - 1)) > 1e-5 or not np.array_equal(np.asarray(b.x_pos), np.asarray(b.y_pos)) or np.max(np.abs(ys - np.asarray(xs))) > 1e-5:
+            bad.append(f"min_derivative={mdv}: derivatives at initialisation {dv.tolist()}, max |transform(x) - x| = {float(np.max(np.abs(ys - np.asarray(xs)))):.3g}")
+    return bool(bad), "; ".join(bad[:2]) or "identity at initialisation on the replay grid"
 
 
 def replay_leaky(max_val):
